@@ -106,6 +106,8 @@ def gen_dataset(rng, n_src, needed, regime, methods, kinds=None):
     keep = sorted(rng.sample(range(n_raw), n_sel))
     if regime == 'taylor':
         N = n_sel
+    elif regime == 'mixed':
+        N = n_sel + rng.randint(1, 3)
     else:
         N = n_sel + rng.randint(0, 40) + 20
     pairs = []
@@ -120,6 +122,10 @@ def gen_dataset(rng, n_src, needed, regime, methods, kinds=None):
         bkg[keep[rng.randrange(n_sel)]] = 0.0           # zero-background event -> constant ratio
     if regime == 'taylor':
         sig = [round(rng.uniform(1e-7, 1e-6), 12) for _ in pairs]
+    elif regime == 'mixed':
+        # about half of the events get a tiny ratio (Taylor branch at ns ~ N), the others a large one (stable)
+        tiny = {e for e in range(n_sel) if e % 2 == 0}
+        sig = [round(rng.uniform(1e-7, 1e-6), 12) if e in tiny else round(rng.uniform(2.0, 8.0), 6) for (_k, e) in pairs]
     else:
         sig = [round(rng.uniform(0.1, 6.0), 6) for _ in pairs]
     er = [(L, methods[i % len(methods)], rng.randint(0, 50), (kinds[i % len(kinds)] if kinds else rng.choice(['i3', 'sigset'])))
@@ -135,7 +141,7 @@ def gen_case(ctx, rng, spec=None):
     needed = [10, 11][:n_needed]
     fixed_pattern = spec.get('fixed', [rng.random() < 0.4 for _ in range(k_other)])
     order = spec.get('order', rng.randrange(2 * (k_other + 1)))
-    regime = spec.get('regime', 'taylor' if rng.random() < 0.08 else 'stable')
+    regime = spec.get('regime', rng.choice(['taylor', 'mixed', 'mixed']) if rng.random() < 0.2 else 'stable')
     on_grid = spec.get('on_grid', rng.random() < 0.12)
     ns_fixed = spec.get('ns_fixed', False)
     decls = gen_layout(rng, n_src, k_other, needed, fixed_pattern, order, ns_fixed=ns_fixed, on_grid=on_grid,
@@ -150,7 +156,7 @@ def gen_case(ctx, rng, spec=None):
     else:
         sizes = [n_src]
     groups = [(n, rng.choice(needed + [None]) if needed else None) for n in sizes]
-    n_ds = 1 if regime == 'taylor' else spec.get('n_ds', rng.choice([1, 2, 2, 3]))
+    n_ds = 1 if regime in ('taylor', 'mixed') else spec.get('n_ds', rng.choice([1, 2, 2, 3]))
     methods = spec.get('methods', rng.choice([['linear'], ['parabola'], ['linear', 'parabola'], ['parabola', 'linear']]))
     datasets = [gen_dataset(rng, n_src, needed, regime, methods, spec.get('kinds')) for _ in range(n_ds)]
     for dsd in datasets:
@@ -164,9 +170,22 @@ def gen_case(ctx, rng, spec=None):
             if d['name'] == 0:
                 if regime == 'taylor':
                     d['val'] = datasets[0]['N'] - 1.0 / 1024
+                elif regime == 'mixed':
+                    d['val'] = datasets[0]['N'] - 1.0 / 64
                 else:
                     d['val'] = rng.randint(1 * 64, 6 * 64) / 64
             vec.append(d['val'])
+    others_d = [d for d in decls if d['name'] != 0 and d['name'] != 9]
+    if needed and others_d and regime != 'taylor' and spec.get('sobp', rng.random() < 0.5):
+        for dsd in datasets:
+            bd = rng.choice(others_d)
+            b0 = [round(rng.uniform(0.3, 2.5), 6) for _ in range(dsd['n_raw'])]
+            if rng.random() < 0.6:
+                b0[dsd['keep'][rng.randrange(len(dsd['keep']))]] = 0.0      # zero background -> constant ratio, gradient 0
+            dsd['sobp'] = {'pn': needed[0], 'cs': 0.3, 'cb': -0.2, 'gname': bd['name'],
+                           'fixed_val': bd['val'] if bd['fixed'] else None, 'b0': b0,
+                           's0': [round(rng.uniform(0.5, 2.0), 6) for _ in dsd['pairs']]}
+        ctx.count('sobp_factor:' + ('bkg_fixed' if bd['fixed'] else 'bkg_floating'))
     if spec.get('gf_field', rng.random() < 0.15):
         flo = [d['name'] for d in decls if not d['fixed']]
         if flo:
@@ -436,6 +455,25 @@ def fd_predicates(ctx, case, W, impl_layout):
         ctx.violation('MultiDatasetTCLLHRatio.evaluate', 'non-finite', 'value or gradient not finite',
                       case=case, impl=[val, grads])
         return None
+    try:
+        nsv = [vec[k] for k, d in enumerate([d for d in case['decls'] if not d['fixed']]) if d['name'] == 0][0]
+        margins, n_st, n_un = [], 0, 0
+        (fw, _fg) = W.f_service.get_weights()
+        for j, swr in enumerate(W.swr):
+            Nj = float(W.tdms[j].n_events)
+            for r in np.asarray(swr._cache_R_i, dtype=float):
+                al = nsv * float(fw[j]) * (r - 1.0) / Nj
+                margins.append(abs(al + 0.999))
+                if al > -0.999:
+                    n_st += 1
+                else:
+                    n_un += 1
+        ctx.count('events_regime:' + ('mixed' if n_st and n_un else 'all_stable' if n_st else 'all_taylor'))
+        if margins and min(margins) < 1e-4:
+            ctx.count('fd_skipped_near_threshold')
+            return len(grads)
+    except Exception:      # noqa: BLE001
+        pass
     if len(grads) != nfl:
         ctx.violation('MultiDatasetTCLLHRatio.evaluate', 'gradient-length', 'gradient vector length != n_floating',
                       case=case, impl=len(grads), predicate='one entry per floating parameter')
@@ -443,8 +481,8 @@ def fd_predicates(ctx, case, W, impl_layout):
     for i in range(nfl):
         d = fl[i]
         h = 2e-4 if d['name'] != 0 else 1e-3
-        if case['regime'] == 'taylor' and d['name'] == 0:
-            h = 2e-5
+        if case['regime'] in ('taylor', 'mixed') and d['name'] == 0:
+            h = 1e-5
         if case['on_grid'] and d['name'] != 0 and abs((vec[i] / 0.25) - round(vec[i] / 0.25)) < 1e-9:
             ctx.count('fd_skipped_on_kink')
             continue
@@ -469,7 +507,7 @@ def fd_predicates(ctx, case, W, impl_layout):
             d = fl[i]
             if case['on_grid'] and d['name'] != 0:
                 continue
-            h = 2e-4 if d['name'] != 0 else (2e-5 if case['regime'] == 'taylor' else 1e-3)
+            h = 2e-4 if d['name'] != 0 else (1e-5 if case['regime'] in ('taylor', 'mixed') else 1e-3)
 
             def f1(x, i=i):
                 v = list(vec)
@@ -630,6 +668,121 @@ def history_probes(ctx, case, W):
         ctx.violation('history_probes', 'raises-' + exc_kind(ex), str(ex), case=case)
 
 
+def hxs(xs):
+    return ' '.join(common.fhex(float(x)) for x in xs)
+
+
+def collect_float(ctx, case, W, jobs):
+    """lines for the extracted gradient model (ocaml/c02): M_LlhGrad.pipeline_eval on the inputs the
+    code has inside evaluate (a_jk rows, their gradient rows, the (source, event, R_ik, dR_ik) tables)
+    and M_LlhGrad.sob_eval for the parameter dependent signal-over-background factor"""
+    if any(W.map_errors):
+        return
+    fl = [d for d in case['decls'] if not d['fixed']]
+    if not any(d['name'] == 0 for d in fl) or len(case['vec']) != len(fl):
+        return
+    vec = list(case['vec'])
+    ns_i = [k for k, d in enumerate(fl) if d['name'] == 0][0]
+    try:
+        (val, grads) = I.evaluate_multi(W, vec)
+        rec = W.pmm.create_src_params_recarray(np.array(vec))
+        g2 = float(W.multi.calculate_ns_grad2(ns=vec[ns_i], ns_pidx=ns_i, src_params_recarray=rec))
+        (a_jk, a_grads) = W.a_service.get_weights()
+        fids = [k for k in range(len(fl)) if k != ns_i] or [None]
+        for fid in fids:
+            toks = ['pipe', common.fhex(1e-3), common.fhex(vec[ns_i]), str(len(W.llh))]
+            for j, tdm in enumerate(W.tdms):
+                inner = W.swr[j].pdfratio
+                (src, evt) = tdm.src_evt_idxs
+                R = np.asarray(inner.get_ratio(tdm=tdm, src_params_recarray=rec), dtype=float)
+                dR = inner.get_gradient(tdm=tdm, src_params_recarray=rec, fitparam_id=fid) if fid is not None else 0
+                dR = np.zeros_like(R) if isinstance(dR, int) else np.asarray(dR, dtype=float)
+                if dR.shape != R.shape:
+                    ctx.violation('PDFRatio.get_gradient', 'gradient-shape', f'shape {dR.shape} for {R.shape} values', case=case)
+                    return
+                a = a_jk[j]
+                toks += [common.fhex(float(tdm.n_events)), str(tdm.n_selected_events), str(len(a)), hxs(a)]
+                if fid is not None and fid in a_grads:
+                    toks += ['1', hxs(a_grads[fid][j])]
+                else:
+                    toks += ['0']
+                toks.append(str(len(R)))
+                for v in range(len(R)):
+                    toks += [str(int(src[v])), str(int(evt[v])), common.fhex(R[v]), common.fhex(dR[v])]
+            gp = grads[fid] if fid is not None else 0.0
+            jobs.append((' '.join(toks), ('pipe', case, fid, [val, grads[ns_i], gp, g2])))
+        # the four quotient-rule cases of SigOverBkgPDFRatio.get_gradient, row by row
+        for j, sp in enumerate(W.sobp):
+            if sp is None:
+                continue
+            (sobp, sigp, bkgp) = sp
+            tdm = W.tdms[j]
+            (src, evt) = tdm.src_evt_idxs
+            ratio = np.asarray(sobp.get_ratio(tdm=tdm, src_params_recarray=rec), dtype=float)
+            s_pd = np.asarray(sobp._cache_sig_pd, dtype=float)
+            b_ev = np.asarray(sobp._cache_bkg_pd, dtype=float)
+            for fid in range(len(fl)):
+                g = np.asarray(sobp.get_gradient(tdm=tdm, src_params_recarray=rec, fitparam_id=fid), dtype=float)
+                sd = fid in sobp._cache_sig_grads
+                bd = fid in sobp._cache_bkg_grads
+                ctx.count('sob_case:' + ('both' if sd and bd else 'sig' if sd else 'bkg' if bd else 'none'))
+                sg = np.asarray(sobp._cache_sig_grads[fid], dtype=float) if sd else np.zeros_like(s_pd)
+                bg = np.asarray(sobp._cache_bkg_grads[fid], dtype=float) if bd else np.zeros_like(b_ev)
+                if g.shape != s_pd.shape:
+                    ctx.violation('SigOverBkgPDFRatio.get_gradient', 'gradient-shape', f'{g.shape} vs {s_pd.shape}', case=case)
+                    continue
+                for v in range(len(s_pd)):
+                    e = int(evt[v])
+                    if b_ev[e] == 0.0:
+                        ctx.count('sob_zero_bkg_rows')
+                    line = ' '.join(['sob', common.fhex(sobp.zero_bkg_ratio_value), common.fhex(s_pd[v]), common.fhex(sg[v]),
+                                     common.fhex(b_ev[e]), common.fhex(bg[e]), '1' if sd else '0', '1' if bd else '0'])
+                    jobs.append((line, ('sob', case, fid, [ratio[v], g[v]])))
+    except Exception as ex:      # noqa: BLE001
+        legal = True
+        ctx.violation('gradient-pipeline', 'raises-' + exc_kind(ex), f'{type(ex).__name__}: {ex}', case=case,
+                      predicate='no legal layout makes the evaluation fail')
+
+
+def run_float(ctx, jobs):
+    if not jobs:
+        return
+    exe = getattr(ctx, '_c02_exe', None)
+    if exe is None:
+        exe = common.ocaml_build(ctx, 'c02')
+        ctx._c02_exe = exe
+    if exe is None:
+        return
+    try:
+        out = common.ocaml_run(exe, [j[0] for j in jobs])
+    except RuntimeError as ex:
+        ctx.broken.append({'kind': 'model-eval', 'error': str(ex)[:1000]})
+        return
+    if len(out) != len(jobs):
+        ctx.broken.append({'kind': 'model-eval', 'error': f'{len(out)} results for {len(jobs)} lines'})
+        return
+    for (line, (kind, case, fid, want)), res in zip(jobs, out):
+        ctx.corr_cases += 1
+        ctx.count('float_model_' + kind)
+        try:
+            got = [float.fromhex(t) for t in res.split()]
+        except ValueError:
+            got = None
+        ok = got is not None and len(got) == len(want)
+        if ok:
+            for w, g in zip(want, got):
+                w = float(w)
+                if math.isnan(w) or math.isnan(g) or math.isinf(w) or math.isinf(g):
+                    ok = ok and (w == g or (math.isnan(w) and math.isnan(g)))
+                else:
+                    ok = ok and abs(w - g) <= 1e-8 * max(1.0, abs(w), abs(g))
+        if not ok:
+            ctx.disagree('gradient-model.' + kind, {'case': case, 'fitparam_id': fid, 'line': line[:4000]},
+                         [float(x) for x in want], got,
+                         detail='(value, grads[ns], grads[p], ns_grad2) of the extracted model on doubles vs the real classes'
+                         if kind == 'pipe' else '(ratio, gradient) of one row of SigOverBkgPDFRatio')
+
+
 # ------------------------------------------------------------------ driver
 def corpus_cases(ctx, rng):
     """regression corpus: the layouts of the two repaired defects (known_findings `fixed`):
@@ -643,6 +796,15 @@ def corpus_cases(ctx, rng):
                  {'n_src': 3, 'k_other': 2, 'n_needed': 1, 'fixed': [False, False], 'order': 0, 'regime': 'stable', 'on_grid': False, 'n_ds': 1}):
         out.append(gen_case(ctx, rng, spec))
         out[-1]['probe'] = True
+    # mixed stable / Taylor regime (some events below, some above the threshold) and the parameter dependent
+    # signal-over-background factor with zero-background events (audit: escaping gradient mutations)
+    for spec in ({'n_src': 1, 'k_other': 1, 'n_needed': 1, 'fixed': [False], 'order': 0, 'regime': 'mixed', 'on_grid': False, 'sobp': False},
+                 {'n_src': 2, 'k_other': 2, 'n_needed': 1, 'fixed': [False, False], 'order': 1, 'regime': 'mixed', 'on_grid': False, 'sobp': True},
+                 {'n_src': 2, 'k_other': 2, 'n_needed': 2, 'fixed': [True, False], 'order': 2, 'regime': 'mixed', 'on_grid': False, 'sobp': True},
+                 {'n_src': 2, 'k_other': 2, 'n_needed': 1, 'fixed': [False, False], 'order': 0, 'regime': 'stable', 'on_grid': False, 'sobp': True, 'n_ds': 2},
+                 {'n_src': 3, 'k_other': 3, 'n_needed': 2, 'fixed': [False, True, False], 'order': 3, 'regime': 'stable', 'on_grid': False, 'sobp': True, 'n_ds': 1},
+                 {'n_src': 1, 'k_other': 1, 'n_needed': 1, 'fixed': [False], 'order': 1, 'regime': 'taylor', 'on_grid': False}):
+        out.append(gen_case(ctx, rng, spec))
     return out
 
 
@@ -669,7 +831,7 @@ def enumerated_specs():
 
 
 def process(ctx, cases, tag):
-    exprs, impls = [], []
+    exprs, impls, jobs = [], [], []
     for ci, c in enumerate(cases):
         ctx.case({'decls': c['decls'], 'groups': c['groups'], 'vec': c['vec'], 'pairs': c['datasets'][0]['pairs']},
                  nontrivial=(len(c['vec']) >= 2 or c['n_src'] >= 2))
@@ -684,6 +846,7 @@ def process(ctx, cases, tag):
         if isinstance(lay, dict):
             n = fd_predicates(ctx, c, W, lay)
             lay['glen'] = n
+            collect_float(ctx, c, W, jobs)
             if ctx.thorough() or c.get('probe') or ci % 3 == 0:
                 history_probes(ctx, c, W)
         impls.append(lay)
@@ -691,6 +854,7 @@ def process(ctx, cases, tag):
     if not ctx.model_ok:
         ctx.notes.append('model did not build: implementation-only predicates were evaluated')
         return
+    run_float(ctx, jobs)
     try:
         vals = common.coq_eval('c02' + tag, IMPORTS, exprs)
     except RuntimeError as ex:
